@@ -223,11 +223,11 @@ theorem fill_id (f : Func) (l : List Numbering.Slot) (h : wfSyn f = true) : fill
 
 theorem translate_wf (f : Func) (hs : wfSyn f = true) (h : wfSem f = true) : translate f = some f := by
   simp only [wfSem, Bool.and_eq_true, Bool.not_eq_true'] at h
-  obtain ⟨⟨⟨⟨hd, hu⟩, hl⟩, hn⟩, hc⟩ := h
+  obtain ⟨⟨⟨⟨⟨hd, hu⟩, hl⟩, hn⟩, hc⟩, ht⟩ := h
   unfold translate
   have hp := Props.C08.parser_accepts_exactly_llvm (slotsOf f) 0
   unfold parseAssign
   rw [hp]
-  simp only [hn, if_true, fill_id f _ hs, hd, Bool.false_eq_true, if_false, hu, hl, Bool.and_self, retype_id f hc]
+  simp only [hn, if_true, fill_id f _ hs, hd, Bool.false_eq_true, if_false, hu, hl, ht, Bool.and_self, retype_id f hc]
 
 end Llir.Core3
